@@ -38,7 +38,7 @@ COMMON = ["examples/networks/Net1.inp", "examples/networks/Net2.inp", "examples/
           "wntr/tests/networks_for_testing/msx_example.inp", "wntr/tests/networks_for_testing/prv_open_no_upstream_sources.inp",
           "wntr/tests/networks_for_testing/psv_open_no_downstream_sources.inp", "wntr/tests/networks_for_testing/times.inp",
           "wntr/tests/networks_for_testing/Awumah_layout1.inp", "wntr/tests/networks_for_testing/Awumah_layout8.inp"]
-UNIT_NETS = COMMON + ["wntr/tests/networks_for_testing/Anytown.inp", "wntr/tests/networks_for_testing/Anytown_multipointcurves.inp",
+UNIT_NETS = ["builtin:gpv", "builtin:pbv"] + COMMON + ["wntr/tests/networks_for_testing/Anytown.inp", "wntr/tests/networks_for_testing/Anytown_multipointcurves.inp",
                       "wntr/tests/networks_for_testing/conditional_controls_2.inp", "wntr/tests/networks_for_testing/control_comb.inp",
                       "wntr/tests/networks_for_testing/io.inp", "wntr/tests/networks_for_testing/time_controls.inp",
                       "wntr/tests/networks_for_testing/tank_controls_1.inp"]
@@ -55,8 +55,27 @@ def _quiet():
     logging.disable(logging.CRITICAL)
 
 
+def _builtin(name):
+    """models built through the API in SI units (no INP file to start from)"""
+    import wntr
+    wn = wntr.network.WaterNetworkModel()
+    wn.add_reservoir("R", base_head=50)
+    wn.add_junction("A", base_demand=0.0, elevation=0)
+    wn.add_junction("B", base_demand=0.02, elevation=0)
+    wn.add_pipe("RA", "R", "A", length=100, diameter=0.3, roughness=100)
+    if name == "gpv":
+        wn.add_curve("hl", "HEADLOSS", [(0.0, 0.0), (0.01, 2.0), (0.02, 5.0), (0.04, 12.0)])      # m3/s, m of head loss
+        wn.add_valve("V", "A", "B", diameter=0.3, valve_type="GPV", initial_setting="hl")
+    elif name == "pbv":
+        wn.add_valve("V", "A", "B", diameter=0.3, valve_type="PBV", initial_setting=7.5)
+    wn.options.time.duration = 2 * 3600
+    return wn
+
+
 def _load(rel, max_hours=24):
     import wntr
+    if rel.startswith("builtin:"):
+        return _builtin(rel[8:])
     wn = wntr.network.WaterNetworkModel(os.path.join(repo_root(), rel))
     if wn.options.time.duration > max_hours * 3600:
         wn.options.time.duration = max_hours * 3600
@@ -174,7 +193,7 @@ def binfile_vs_toolkit(tier, seed, shard, nshards):
 def unit_independence(tier, seed, shard, nshards):
     import wntr
     _quiet()
-    nets = UNIT_NETS[:8] if tier == "quick" else UNIT_NETS
+    nets = UNIT_NETS[:10] if tier == "quick" else UNIT_NETS
     TOL = 3e-3
     evals, distinct, failures, samples = 0, set(), [], []
     with Scratch() as d:
